@@ -59,6 +59,9 @@ func isM(i int) bool { return i > idMaxP && i <= idMax }
 
 var refNames = []string{"refs/heads/main", "refs/heads/dev", "refs/tags/v1", "refs/heads/topic/x"}
 
+var symNames = []string{"HEAD", "refs/heads/alias"}
+var symTargets = []string{"refs/heads/main", "refs/heads/dev"}
+
 type nopWC struct{ io.Writer }
 
 func (nopWC) Close() error { return nil }
@@ -265,7 +268,19 @@ type Cmd struct {
 	Old, New int
 }
 
+// SymCmd is a create command (old = zero id) for a name that exists as a
+// symbolic reference (HEAD -> refs/heads/main, refs/heads/alias -> refs/heads/dev).
+// A create of an existing name is never consistent, so it must be refused and
+// the symbolic reference must stay as it is. Updates and deletes addressed to a
+// symbolic name are not generated: git applies them through the link, which is
+// outside this property's compare-and-swap model.
+type SymCmd struct {
+	Sym int // index into symNames
+	New int // 1..4 existing object, 5..6 object from the pack
+}
+
 type Case struct {
+	SymCmds  []SymCmd
 	Init     []int // per ref name: 0 absent, 1..4 = E
 	Cmds     []Cmd
 	FS       bool // filesystem storage (real directory) instead of memory
@@ -285,6 +300,11 @@ func gen(t *rapid.T, r *evid.Recorder) Case {
 		m.Old = rapid.SampledFrom([]int{-1, -1, -1, -1, 0, 1, 2, 3, 4, 7}).Draw(t, "old")
 		m.New = rapid.SampledFrom([]int{0, 1, 2, 3, 4, 5, 5, 6, 7, 8}).Draw(t, "new")
 		c.Cmds = append(c.Cmds, m)
+	}
+	if rapid.IntRange(0, 3).Draw(t, "symcmds") == 0 {
+		for i := rapid.IntRange(1, 2).Draw(t, "nsym"); i > 0; i-- {
+			c.SymCmds = append(c.SymCmds, SymCmd{Sym: rapid.IntRange(0, len(symNames)-1).Draw(t, "sym"), New: rapid.SampledFrom([]int{1, 2, 3, 5, 6}).Draw(t, "symnew")})
+		}
 	}
 	c.FS = rapid.IntRange(0, 7).Draw(t, "fs") == 0
 	c.Advert = rapid.Bool().Draw(t, "advert")
@@ -350,6 +370,11 @@ func inDomain(c Case) bool {
 	}
 	for _, v := range c.Init {
 		if v < 0 || v > idMaxE {
+			return false
+		}
+	}
+	for _, sc := range c.SymCmds {
+		if sc.Sym < 0 || sc.Sym >= len(symNames) || sc.New < 1 || sc.New > idMaxP {
 			return false
 		}
 	}
@@ -486,12 +511,28 @@ func run(c Case) evid.Result {
 			}
 		}
 	}
+	if len(c.SymCmds) > 0 {
+		for i, n := range symNames {
+			if err := st.SetReference(plumbing.NewSymbolicReference(plumbing.ReferenceName(n), plumbing.ReferenceName(symTargets[i]))); err != nil {
+				panic("INFRA: SetReference(symbolic): " + err.Error())
+			}
+		}
+		res.Labels = append(res.Labels, "create-over-symbolic-ref")
+	}
 	rc, _ := resolve(c)
 	var cmds []*packp.Command
 	perRef := map[int][]rcmd{}
 	for _, r := range rc {
 		cmds = append(cmds, &packp.Command{Name: plumbing.ReferenceName(refNames[r.ref]), Old: w.ids[r.old], New: w.ids[r.new]})
 		perRef[r.ref] = append(perRef[r.ref], r)
+	}
+	symSeen := map[int]bool{}
+	for _, sc := range c.SymCmds {
+		if symSeen[sc.Sym] {
+			continue // one command per symbolic name (duplicate names are a separate, known, report defect)
+		}
+		symSeen[sc.Sym] = true
+		cmds = append(cmds, &packp.Command{Name: plumbing.ReferenceName(symNames[sc.Sym]), Old: plumbing.ZeroHash, New: w.ids[sc.New]})
 	}
 	dup := false
 	for _, l := range perRef {
@@ -516,7 +557,7 @@ func run(c Case) evid.Result {
 	if c.FS {
 		res.Labels = append(res.Labels, "filesystem-storage")
 	}
-	res.NonTrivial = stale || missing
+	res.NonTrivial = stale || missing || len(c.SymCmds) > 0
 
 	rep, raw, err := push(st, w, cmds, c.Advert, c.Sideband, c.V2)
 	if err != nil {
@@ -549,6 +590,21 @@ func run(c Case) evid.Result {
 			fmt.Fprintf(&sb, "  cmd %s %s old=%s new=%s model=%v %s\n", r.action, refNames[r.ref], w.name(w.ids[r.old]), w.name(w.ids[r.new]), r.valid, r.why)
 		}
 		return sb.String() + "  report:\n    " + strings.ReplaceAll(rep.raw, "\n", "\n    ")
+	}
+
+	// (0) a create addressed to an existing symbolic reference is refused and leaves it alone
+	for si := range symSeen {
+		ref, err := rd.Reference(plumbing.ReferenceName(symNames[si]))
+		if err != nil || ref.Type() != plumbing.SymbolicReference || string(ref.Target()) != symTargets[si] {
+			res.Fail = evid.Failf("C39/create-over-existing-symbolic-ref-applied", "create command (old = zero id) for %s, which exists as a symbolic reference to %s: afterwards it is %v (err %v)\n%s", symNames[si], symTargets[si], ref, err, describe())
+			return res
+		}
+		for _, l := range rep.lines {
+			if l.ref == symNames[si] && l.ok {
+				res.Fail = evid.Failf("C39/report/ok-for-create-over-existing-symbolic-ref", "create of the existing symbolic reference %s reported ok\n%s", symNames[si], describe())
+				return res
+			}
+		}
 	}
 
 	// (1) no reference points to a missing object
@@ -625,6 +681,9 @@ func run(c Case) evid.Result {
 			res.Fail = evid.Failf("C39/report/ng-but-applied:"+r.action, "%s reported ng (%s) but changed to %s\n%s", n, l.reason, w.name(after[i]), describe())
 			return res
 		}
+	}
+	for si := range symSeen {
+		delete(byRef, symNames[si])
 	}
 	for n := range byRef {
 		res.Fail = evid.Failf("C39/report/status-for-unknown-ref", "status line for %q which no command names\n%s", n, describe())
